@@ -589,4 +589,310 @@ theorem followOK_of_iterOut {G : Grammar} {k : Nat} {fn : Nat → TSet} (H : FHy
   · rintro ⟨v1, f, hv1, hf, rfl⟩
     exact eqVal_complete H he hv1 ((hacc _ _).2 hf)
 
+
+/-! ## k = 0: every tuple is ε -/
+
+theorem kcatSetQ_zero_nil {X Y : TSet} (hX : ∀ x ∈ X, x = []) : ∀ t ∈ kcatSetQ 0 X Y, t = [] := by
+  intro t ht
+  rw [mem_kcatSetQ] at ht
+  obtain ⟨x, hx, h⟩ := ht
+  have := hX x hx
+  subst this
+  rcases h with ⟨hc, _⟩ | ⟨_, y, _, rfl⟩
+  · simp [tupComplete] at hc
+  · simp [kcat, tupComplete]
+
+theorem evalPartsFrom_zero_nil {env : Nat → TSet} (parts : List KPart) :
+    ∀ r : TSet, (∀ x ∈ r, x = []) → ∀ t ∈ evalPartsFrom 0 env r parts, t = [] := by
+  induction parts with
+  | nil => intro r hr t ht; exact hr t ht
+  | cons p ps ih => intro r hr t ht; exact ih _ (kcatSetQ_zero_nil hr) t ht
+
+theorem eqVal_zero_nil {fn : Nat → TSet} {acc : Env} {e : FEq} : ∀ t ∈ eqVal 0 fn acc e, t = [] := by
+  apply kcatSetQ_zero_nil
+  apply evalPartsFrom_zero_nil
+  intro x hx; simpa using hx
+
+theorem followStep_zero_nil {fn : Nat → TSet} (es : List FEq) :
+    ∀ acc, ∀ S ∈ (followStep 0 fn es acc).1, ∀ t ∈ S, t = [] := by
+  induction es with
+  | nil => intro acc S hS; simp [followStep] at hS
+  | cons e es ih =>
+    intro acc S hS
+    rw [followStep_cons] at hS
+    simp only [List.mem_cons] at hS
+    rcases hS with rfl | hS
+    · exact eqVal_zero_nil
+    · exact ih _ S hS
+
+theorem iterFollow_is_step {k : Nat} {fn : Nat → TSet} {es : List FEq} :
+    ∀ (fuel : Nat) (map : List TSet) (acc : Env) (r : List TSet × Env),
+      iterFollow k fn es fuel map acc = some r → ∃ a, followStep k fn es a = r := by
+  intro fuel
+  induction fuel with
+  | zero => intro map acc r h; simp [iterFollow] at h
+  | succ f ih =>
+    intro map acc r h
+    simp only [iterFollow] at h
+    split at h
+    · injection h with h; exact ⟨acc, h⟩
+    · exact ih _ _ r h
+
+theorem followCode_zero_nil {G : Grammar} {fuel : Nat} {r : List TSet × Env}
+    (h : followCode G fuel 0 = some r) : ∀ S ∈ r.1, ∀ t ∈ S, t = [] := by
+  simp only [followCode] at h
+  cases hf : firstCode G fuel 0 with
+  | none => simp [hf] at h
+  | some fv =>
+    simp only [hf, Option.bind_some] at h
+    obtain ⟨a, ha⟩ := iterFollow_is_step _ _ _ r h
+    rw [← ha]
+    exact followStep_zero_nil _ a
+
+/-! ## the start accumulators -/
+
+theorem envGet_initFollowAcc (G : Grammar) (A : Nat) :
+    envGet (initFollowAcc G) A = if A ∈ ntsOf G then (if A = G.start then [[0]] else []) else [] := by
+  unfold initFollowAcc
+  exact envGet_map _ _ A
+
+theorem keys_initFollowAcc (G : Grammar) : (initFollowAcc G).map (·.1) = ntsOf G := by
+  simp [initFollowAcc, Function.comp_def]
+
+theorem init_mem (G : Grammar) : [0] ∈ envGet (initFollowAcc G) G.start := by
+  rw [envGet_initFollowAcc]; simp [start_mem_ntsOf]
+
+theorem initFollowAcc_sound (G : Grammar) {k : Nat} (hk : 1 ≤ k) : AccSound G k (initFollowAcc G) := by
+  intro A t ht
+  rw [envGet_initFollowAcc] at ht
+  split at ht
+  · split at ht
+    · rename_i hA
+      simp only [List.mem_singleton] at ht
+      subst hA; subst ht
+      exact ⟨[], [], .start, .nil, by simp [take_singleton_of_pos hk]⟩
+    · cases ht
+  · cases ht
+
+/-! ## the first comparison against the k − 1 map -/
+
+theorem followCtx_no_eoi {G : Grammar} (hno : NoEoi G) {A : Nat} {γ : List Sym}
+    (h : FollowCtx G A γ) : Sym.t 0 ∉ γ := by
+  induction h with
+  | start => simp
+  | step p hp α β γ B hr _ ih =>
+    simp only [List.mem_append, not_or]
+    refine ⟨fun h => hno p hp ?_, ih⟩
+    rw [hr]; simp [h]
+
+theorem followKc_inv {G : Grammar} {k A : Nat} {t : Tup} (h : FollowKc G k A t) :
+    (A = G.start ∧ t = ([0] : Tup).take k) ∨ ∃ e ∈ followEqs G, e.target = A ∧ PosK G k e t := by
+  obtain ⟨γ, v, hc, hv, rfl⟩ := h
+  cases hc with
+  | start =>
+    left
+    have := yield_nil_inv hv
+    subst this
+    exact ⟨rfl, rfl⟩
+  | step p hp α β γ' B hr hc' =>
+    right
+    obtain ⟨v1, v2, rfl, hv1, hv2⟩ := Yield.split hv
+    obtain ⟨e, he, ht, hs, hrest⟩ := followEqs_complete hp hr
+    refine ⟨e, he, ht, v1, (v2 ++ [0]).take k, hrest ▸ hv1, ⟨γ', v2, hs ▸ hc', hv2, rfl⟩, ?_⟩
+    rw [take_append_take_right, List.append_assoc]
+
+/-- strings behind a position: a declarative position value is the k-prefix of `v·EOI` with `v` free of EOI -/
+theorem posK_shape {G : Grammar} (hno : NoEoi G) {k : Nat} {e : FEq} (he : e ∈ followEqs G) {t : Tup}
+    (h : PosK G k e t) : ∃ v, 0 ∉ v ∧ t = (v ++ [0]).take k ∧ ∀ j, PosK G j e ((v ++ [0]).take j) := by
+  obtain ⟨v1, f, hv1, ⟨γ, v2, hc, hv2, rfl⟩, rfl⟩ := h
+  obtain ⟨p, hp, _, α, hr⟩ := mem_followEqs he
+  have h0 : Sym.t 0 ∉ e.rest := fun h => hno p hp (by rw [hr]; simp [h])
+  refine ⟨v1 ++ v2, ?_, ?_, ?_⟩
+  · simp only [List.mem_append, not_or]
+    exact ⟨yield_no_eoi hno hv1 h0, yield_no_eoi hno hv2 (followCtx_no_eoi hno hc)⟩
+  · rw [take_append_take_right, List.append_assoc]
+  · intro j
+    exact ⟨v1, (v2 ++ [0]).take j, hv1, ⟨γ, v2, hc, hv2, rfl⟩, by
+      rw [take_append_take_right, List.append_assoc]⟩
+
+theorem take_snoc_eoi {v : List Nat} (h0 : 0 ∉ v) {k : Nat} (h : 0 ∈ (v ++ [0]).take k) :
+    (v ++ [0]).take k = v ++ [0] := by
+  rcases Nat.lt_or_ge v.length k with hlt | hge
+  · exact List.take_of_length_le (by simp; omega)
+  · rw [take_append_of_le_length hge] at h
+    exact absurd (List.mem_of_mem_take h) h0
+
+theorem premature_ok {G : Grammar} {k : Nat} {fn : Nat → TSet} (H : FHyp G (k+1) fn) (_hk : 1 ≤ k)
+    {Pk : List TSet} {acck : Env} (hprev : FollowOK G k Pk acck)
+    (hsame : listSame (followStep (k+1) fn (followEqs G) (initFollowAcc G)).1 Pk = true) :
+    FollowOK G (k+1) (followStep (k+1) fn (followEqs G) (initFollowAcc G)).1
+      (followStep (k+1) fn (followEqs G) (initFollowAcc G)).2 := by
+  have hall := listSame_iff.1 hsame
+  obtain ⟨hs2, hpos⟩ := followStep_sound H (followEqs G) (fun e he => he) (initFollowAcc G)
+    (initFollowAcc_sound G H.kpos)
+  have htk : ∀ e ∈ followEqs G, e.target ∈ (initFollowAcc G).map (·.1) := fun e he => by
+    rw [keys_initFollowAcc]; exact target_mem_ntsOf he
+  have hcov := followStep_covered (k+1) fn (followEqs G) (initFollowAcc G) htk
+  have hposIff : ∀ p ∈ (followEqs G).zip (followStep (k+1) fn (followEqs G) (initFollowAcc G)).1,
+      ∀ t, t ∈ p.2 ↔ PosK G (k+1) p.1 t := by
+    intro p hp t
+    refine ⟨hpos p hp t, fun ht => ?_⟩
+    have he : p.1 ∈ followEqs G := (List.of_mem_zip hp).1
+    obtain ⟨v, hv0, rfl, hall_j⟩ := posK_shape H.noEoi he ht
+    -- the k-prefix is in the old map, hence in the new one, hence ends with EOI
+    obtain ⟨S', hS', hse⟩ := allSetEq_zip_transfer hall (followEqs G) p hp
+    have hu : (v ++ [0]).take k ∈ p.2 := (hse _).2 ((hprev.pos _ hS' _).2 (hall_j k))
+    obtain ⟨w, _, hw, _⟩ := posK_shape H.noEoi he (hpos p hp _ hu)
+    have hlen : ((w ++ [0]).take (k+1)).length ≤ k := by
+      rw [← hw]; simp [List.length_take]; omega
+    have h0u : 0 ∈ (v ++ [0]).take k := by
+      rw [hw]
+      have : (w ++ [0]).take (k+1) = w ++ [0] := by
+        apply List.take_of_length_le
+        simp only [List.length_take, List.length_append, List.length_singleton] at hlen ⊢
+        omega
+      rw [this]; simp
+    have e1 := take_snoc_eoi hv0 h0u
+    have h0u' : 0 ∈ (v ++ [0]).take (k+1) := by
+      have hl : (v ++ [0]).length ≤ k := by
+        have := congrArg List.length e1
+        simp only [List.length_take, List.length_append, List.length_singleton] at this ⊢
+        omega
+      rw [List.take_of_length_le (by omega)]; simp
+    rw [take_snoc_eoi hv0 h0u', ← e1]
+    exact hu
+  refine ⟨fun A t => ⟨hs2 A t, fun ht => ?_⟩, hposIff⟩
+  rcases followKc_inv ht with ⟨rfl, rfl⟩ | ⟨e, he, rfl, hp⟩
+  · apply followStep_mono
+    rw [take_singleton_of_pos H.kpos]
+    exact init_mem G
+  · obtain ⟨S, hS⟩ := mem_zip_of_mem_left (length_followStep (k+1) fn _ (initFollowAcc G)) he
+    exact hcov _ hS t ((hposIff _ hS t).2 hp)
+
+/-! ## `follow_k` = definition -/
+
+theorem followCode_ok {G : Grammar} {fuel : Nat} (hno : NoEoi G) (hprod : Productive G)
+    (hreach : Reachable G) (hnlr : NoLeftRec G) :
+    ∀ (k : Nat), 1 ≤ k → ∀ (r : List TSet × Env), followCode G fuel k = some r →
+      FollowOK G k r.1 r.2 := by
+  intro k
+  induction k with
+  | zero => intro h; omega
+  | succ k ih =>
+    intro _ r h
+    simp only [followCode] at h
+    cases hf : firstCode G fuel (k+1) with
+    | none => simp [hf] at h
+    | some fv =>
+      simp only [hf, Option.bind_some] at h
+      cases hp : followCode G fuel k with
+      | none => simp [hp] at h
+      | some prev =>
+        simp only [hp, Option.bind_some] at h
+        have hfirst : FirstOK G (k+1) (envGet fv.nts) :=
+          (first_k_eq_spec_aux hno hprod hnlr (by omega) hf).1
+        have H : FHyp G (k+1) (envGet fv.nts) := ⟨by omega, hno, hprod, hreach, hfirst⟩
+        cases fuel with
+        | zero => simp [iterFollow] at h
+        | succ f =>
+          simp only [iterFollow] at h
+          have hkeys' : (followStep (k+1) (envGet fv.nts) (followEqs G) (initFollowAcc G)).2.map (·.1) = ntsOf G := by
+            rw [keys_followStep]; exact keys_initFollowAcc G
+          have htk : ∀ e ∈ followEqs G, e.target ∈ (initFollowAcc G).map (·.1) := fun e he => by
+            rw [keys_initFollowAcc]; exact target_mem_ntsOf he
+          obtain ⟨hs2, hpos⟩ := followStep_sound H (followEqs G) (fun e he => he) (initFollowAcc G)
+            (initFollowAcc_sound G H.kpos)
+          have hcov2 := followStep_covered (k+1) (envGet fv.nts) (followEqs G) (initFollowAcc G) htk
+          split at h
+          · rename_i hsame
+            injection h with h
+            subst h
+            rcases Nat.eq_zero_or_pos k with hk0 | hkpos
+            · -- k = 0: the old map holds only ε, the new results are never ε: both are empty, so
+              -- the old map is covered and the general argument applies
+              subst hk0
+              have hall := listSame_iff.1 hsame
+              have hcov : Covered (followEqs G) prev.1 (initFollowAcc G) := by
+                intro p hp' t ht
+                have hnil := followCode_zero_nil hp p.2 (List.of_mem_zip hp').2 t ht
+                obtain ⟨S', hS', hse⟩ := allSetEq_zip_transfer hall.symm (followEqs G) p hp'
+                have := hpos _ hS' t ((hse t).1 ht)
+                exact absurd hnil (followKc_ne_nil (by omega) (posK_follow (List.of_mem_zip hS').1 this))
+              have hwhole : iterFollow 1 (envGet fv.nts) (followEqs G) (f+1) prev.1 (initFollowAcc G)
+                  = some (followStep 1 (envGet fv.nts) (followEqs G) (initFollowAcc G)) := by
+                simp only [iterFollow, hsame, ↓reduceIte]
+              exact followOK_of_iterOut H (init_mem G)
+                (iterFollow_covered H (f+1) prev.1 (initFollowAcc G) _ _ (keys_initFollowAcc G)
+                  (initFollowAcc_sound G H.kpos) hcov hwhole)
+            · exact premature_ok H hkpos (ih hkpos prev hp) hsame
+          · have hout := iterFollow_covered H f _ _ r.1 r.2 hkeys' hs2 hcov2 h
+            exact followOK_of_iterOut H (followStep_mono _ _ _ _ _ _ (init_mem G)) hout
+
+
+/-- C06 delivers the hypothesis of the C05 theorems for grammars of the property's class -/
+theorem setsAreSpecAt_of_class {G : Grammar} {fuel k : Nat} (hno : NoEoi G) (hprod : Productive G)
+    (hreach : Reachable G) (hnlr : NoLeftRec G) (hk : 1 ≤ k)
+    (hc1 : (firstCode G fuel k).isSome) (hc2 : (followCode G fuel k).isSome) :
+    SetsAreSpecAt G fuel k := by
+  obtain ⟨fv, hfv⟩ := Option.isSome_iff_exists.1 hc1
+  obtain ⟨fw, hfw⟩ := Option.isSome_iff_exists.1 hc2
+  refine ⟨fv, fw, hfv, hfw, (first_k_eq_spec_aux hno hprod hnlr hk hfv).2, ?_⟩
+  intro A t
+  rw [followK_iff_ctx]
+  exact (followCode_ok hno hprod hreach hnlr k hk fw hfw).acc A t
+
+theorem c05Hyp_of_class {G : Grammar} {fuel K : Nat} (hno : NoEoi G) (hprod : Productive G)
+    (hreach : Reachable G) (hnlr : NoLeftRec G)
+    (hcomp : ∀ k, 1 ≤ k → k ≤ K → (firstCode G fuel k).isSome ∧ (followCode G fuel k).isSome)
+    {p : Rule} (hp : p ∈ G.prods) : C05Hyp G fuel K p.lhs := by
+  refine ⟨hno, fun k h1 h2 => setsAreSpecAt_of_class hno hprod hreach hnlr h1 (hcomp k h1 h2).1 (hcomp k h1 h2).2, ?_⟩
+  intro k
+  obtain ⟨f, hf⟩ := followKc_inh hreach hp k
+  exact ⟨f, followK_iff_ctx.2 hf⟩
+
+/-! ## a grammar of the property's class (non-vacuity of the hypotheses): `S: A "b"; A: ; A: "a";` -/
+
+def Gex : Grammar := ⟨0, [⟨0, [.n 1, .t 6]⟩, ⟨1, []⟩, ⟨1, [.t 5]⟩]⟩
+
+theorem gex_noEoi : NoEoi Gex := by
+  intro p hp
+  simp [Gex] at hp
+  rcases hp with rfl | rfl | rfl <;> simp
+
+theorem gex_yield1 : Yield Gex [.n 1] [] := yield_single (p := ⟨1, []⟩) (by simp [Gex]) .nil
+
+theorem gex_productive : Productive Gex := by
+  intro p hp B hB
+  simp [Gex] at hp
+  rcases hp with rfl | rfl | rfl <;> simp at hB
+  subst hB
+  exact ⟨[], gex_yield1⟩
+
+theorem gex_reachable : Reachable Gex := by
+  intro p hp
+  simp [Gex] at hp
+  rcases hp with rfl | rfl | rfl
+  · exact ⟨[], [], .start, .nil⟩
+  · exact ⟨[.t 6], [6], FollowCtx.step (G := Gex) ⟨0, [.n 1, .t 6]⟩ (by simp [Gex]) [] [.t 6] [] 1 rfl .start, .term 6 .nil⟩
+  · exact ⟨[.t 6], [6], FollowCtx.step (G := Gex) ⟨0, [.n 1, .t 6]⟩ (by simp [Gex]) [] [.t 6] [] 1 rfl .start, .term 6 .nil⟩
+
+theorem gex_noLeftRec : NoLeftRec Gex := by
+  refine ⟨fun A => if A = 0 then 1 else 0, ?_⟩
+  rintro A B ⟨p, hp, rfl, α, β, hr, _⟩
+  simp [Gex] at hp
+  rcases hp with rfl | rfl | rfl
+  · -- [n 1, t 6] = α ++ n B :: β
+    cases α with
+    | nil => simp at hr; obtain ⟨rfl, _⟩ := hr; simp
+    | cons x xs =>
+      simp at hr
+      obtain ⟨_, hr⟩ := hr
+      cases xs with
+      | nil => simp at hr
+      | cons y ys => simp at hr
+  · simp at hr
+  · cases α with
+    | nil => simp at hr
+    | cons x xs => simp at hr
+
 end ParolModel.KS
